@@ -46,7 +46,7 @@ META = {
 MODES = ["chainable", "lenient", "semistrict", "strict"]
 SITE_STREAMS = ("site", "fmt", "fmtv", "fmtc")
 MODEL_STREAMS = ("site", "fmt", "fmtv", "fmtc", "prog", "progv", "progc")
-NEEDED = ["C12_ARG_TYPES", "C12_BUILTIN_SIGS", "C12_MODES", "C12_HANDLE_UNDEFINED", "C12_IS_TRUE", "C12_ASSERT_ITERABLE", "C12_ASSERT_VALUE_NOT_UNDEFINED",
+NEEDED = ["C12_MODE_SITES", "C12_ARG_TYPES", "C12_BUILTIN_SIGS", "C12_MODES", "C12_HANDLE_UNDEFINED", "C12_IS_TRUE", "C12_ASSERT_ITERABLE", "C12_ASSERT_VALUE_NOT_UNDEFINED",
           "C12_TRY_ITER", "C12_VM_EMIT", "C12_VM_SLICE", "C12_ENV_FORMAT", "C12_VM_SITES", "C12_BUILTIN_NAMES"]
 
 # the documented matrix per site class: which modes must fail with UndefinedError
@@ -86,7 +86,7 @@ def cls(r):
 
 
 def builtin_of(stream, label):
-    if stream in ("call", "sweep"):
+    if stream in ("call", "sweep", "callh", "sweeph"):
         p = label.split(":")
         return p[0] + ":" + p[1]
     return None
@@ -101,7 +101,7 @@ def judge(r, stream, label, src, rs):
         if rs[j].startswith("ok:"):
             for i in range(j):
                 if rs[i] != rs[j]:
-                    who = builtin_of(stream, label) or (label.split(":")[0] + ":" + src if stream in SITE_STREAMS or stream.startswith("stmt") else "program")
+                    who = builtin_of(stream, label) or (label.split(":")[0] + ":" + src if stream in SITE_STREAMS or stream.startswith(("stmt", "api", "entry")) else "program")
                     weak = rs[i] if not rs[i].startswith(("ok:", "panic:")) else rs[i].split(":")[0] + ":different-output" if rs[i].startswith("ok:") else "panic"
                     r.oracle_failure(case, f"{MODES[j]} renders {dec(rs[j])!r} but the weaker mode {MODES[i]} gives {dec(rs[i])!r}",
                                      f"mono:{stream}:{who}:{MODES[j]}-ok/{MODES[i]}-{weak}")
@@ -128,7 +128,13 @@ def run(r):
               "silent undefined / none / [x, undefined] / {'k': undefined} / a missing attribute; every builtin x receiver x "
               "argument lists of arity 0..2 (thorough: 3) over a pool of 11 operands; ~130 statement forms with an undefined "
               "operand (include/extends/import/macro/call/autoescape/unpacking/recursive loops/loop.*/namespace/functions/"
-              "methods/literals), also through the visible and counting formatters; seeded random programs (1/3 also through "
+              "methods/literals), also through the visible and counting formatters and auto-escaped; every builtin call and the sweep "
+              "once more in a `.html` template (auto-escaping on) with safe strings as the other operands (safe joiner / safe "
+              "items / safe format string ...); the public State / Value API (State::format, apply_filter, perform_test, "
+              "call_macro, render_block, lookup; Value::call, call_method, get_attr, get_item, try_iter) called from a Rust "
+              "function with 11 operands, plain and auto-escaped; the site templates through 9 other entry points / "
+              "configurations (loader, template_from_str, render_captured, compile_expression, render_block, custom syntax, "
+              "debug off, auto-escape callback, call_macro); seeded random programs (1/3 also through "
               "the visible, 1/6 through the counting formatter) of the core "
               "fragment (print, if/elif/else, for/else, set, set-block, with, attribute/item chains, slices, not/and/or, "
               "ternary with and without else, comparisons and chains, in, ~, + - *, tests, filters; the `rich` half adds macros, "
@@ -157,6 +163,14 @@ def run(r):
         if missing:
             r.broken.append(f"builtin {k}s registered in defaults.rs but not exercised by the harness: {missing}")
     r.extra["builtins_covered"] = {k: len(v) for k, v in covered.items()}
+    safe_fns = set()
+    sp = st["items"].get("SAFE_PRODUCER_SITES") or {}
+    sp_sites = [x for v in (sp.values() if isinstance(sp, dict) else [sp]) if isinstance(v, list) for x in v if isinstance(x, str)]
+    for site in sp_sites:
+        parts = site.split("::")
+        if parts[0] == "minijinja/src/filters.rs":
+            safe_fns.add({"join_safe": "join", "strip_trailing_newline": "indent"}.get(parts[1], parts[1]))
+    r.extra["filters_with_a_safe_string_branch (C02 table)"] = sorted(safe_fns)
 
     rc, out, err = r.harness(exe, ["gen", r.tier])
     if rc != 0:
@@ -168,6 +182,7 @@ def run(r):
     n_prog_lines = 0
     model_in = ["matrix"]
     sensitivity = collections.defaultdict(set)
+    html_seen = set()
     for line in lines:
         if line.startswith("ctx\t"):
             model_in.append(line)
@@ -190,17 +205,24 @@ def run(r):
         b = builtin_of(stream, label)
         if b:
             sensitivity[b].add(sh)
+            if stream == "callh":
+                html_seen.add(b)
+        if stream == "entry":
+            r.hist["entry point / configuration"][label.split(":")[0]] += 1
         nfail = judge(r, stream, label, src, rs)
-        if prog.startswith("B "):
+        if prog.startswith("B ") and stream in ("call", "sweep"):
             b = prog.split(" ")
             name = bytes.fromhex(b[2]).decode()
             sig_cases[cid] = (b[1], name)
             model_in.append("\t".join(["sig", cid, b[1], name] + b[3:]))
-        elif prog != "-":
+        elif prog != "-" and not prog.startswith("B "):
             model_in.append(line)
             n_prog_lines += 1
         if stream in ("site", "prog") and (len(r.samples) < 4 or (len(set(rs)) > 1 and len(r.samples) < 10 and stream == "prog")):
             r.sample({"stream": stream, "template": src[:300], "results": [dec(x)[:80] for x in rs]})
+    not_html = sorted(f for f in safe_fns if f in covered["filter"] and "filter:" + f not in html_seen)
+    if not_html:
+        r.broken.append(f"filters with a safe-string branch that the auto-escape stream does not exercise: {not_html}")
     r.extra["mode_sensitive_builtins"] = sorted(b for b, s in sensitivity.items() if any(len(set(x)) > 1 for x in s))
     r.extra["mode_insensitive_builtins"] = sorted(b for b, s in sensitivity.items() if all(len(set(x)) == 1 for x in s))
 
@@ -235,7 +257,7 @@ def run(r):
             if f[1:] == ["no-sig"]:
                 r.broken.append(f"no extracted signature for the registered builtin {kind} `{name}`")
                 continue
-            conv, purity = f[1:5], f[5]
+            conv, purity, asks = f[1:5], f[5], f[6:10]
             body_modes = [i for i in range(4) if conv[i] == "body"]
             case = f"{stream}\t{src}"
             single = label.split(":")[-1]
@@ -260,6 +282,22 @@ def run(r):
                 if not ok_shape:
                     r.model_disagreement(case, [dec(x) for x in rs], ["signature: " + c for c in conv] + [purity])
                 sig_checked["pure body: modes passing the conversion agree"] += 1
+            if purity == "touching" and len(asks) == 4:
+                # (iii) a mode-reaching builtin through its hand-modelled questions (nested calls included): a mode in
+                # which a question fails is an error in the engine; the modes in which none fails agree (up to the Emit
+                # of an undefined result)
+                bad = any(asks[i] == "ask-err" and rs[i].startswith("ok:") for i in range(4))
+                passing = [i for i in range(4) if asks[i] == "pass"]
+                sub = [rs[i] for i in passing]
+                ok_shape = len(set(sub)) <= 1
+                if not ok_shape and kind != "test":
+                    len_ = [rs[i] for i in passing if i < 2]
+                    strict_ = [rs[i] for i in passing if i >= 2]
+                    ok_shape = (len(set(len_)) == 1 and len_ and len_[0].startswith("ok:")
+                                and all(x == "err:UndefinedError" for x in strict_))
+                if bad or not ok_shape:
+                    r.model_disagreement(case, [dec(x) for x in rs], ["questions: " + a for a in asks])
+                sig_checked["mode-reaching builtin: the hand-modelled questions predict the failing modes"] += 1
             continue
         if len(f) != 6:
             if f[1:] == ["-"]:
